@@ -97,7 +97,7 @@ def replay(header: dict, cases: List[dict]):
 def has_union(T: Any, classes: dict, seen: frozenset = frozenset()) -> bool:
     """Errors of every alternative of a union are merged, so equal messages may repeat."""
     if isinstance(T, dict):
-        if T.get("k") == "union":
+        if T.get("k") in ("union", "dunion"):
             return True
         if T.get("k") == "obj":
             if T["cls"] in seen:
